@@ -175,6 +175,8 @@ class Interp:
             return self.p_pure_callback(eqn, vals)
         if name in ("debug_callback", "debug_print"):
             return []
+        if name == "sort" and any_sym:
+            return self.p_sort(eqn, vals)
         if not any_sym:
             return self.bind_concrete(eqn, vals)
         if name in STRUCTURAL:
@@ -519,7 +521,33 @@ class Interp:
         raise Unsupported("rem on symbolic operands")
 
     def p_sort(self, eqn, v):
-        raise Unsupported("sort on symbolic operands")
+        """sort with concrete keys and symbolic payload operands: the permutation is JAX's (identifier arrays)"""
+        nk = eqn.params["num_keys"]
+        if any(is_sym(x) for x in v[:nk]):
+            raise Unsupported("sort with symbolic keys")
+        pool, args, off, symp = [], list(v), 0, []
+        for i, x in enumerate(v):
+            if is_sym(x):
+                ids = np.arange(off, off + x.size, dtype=np.int64).reshape(x.shape)
+                pool.extend(x.reshape(-1).tolist())
+                off += x.size
+                args[i] = jnp.asarray(ids)
+                symp.append(i)
+            else:
+                args[i] = x if not isinstance(x, np.ndarray) else jnp.asarray(x)
+        outs = eqn.primitive.bind(*args, **eqn.params)
+        res = []
+        for i, o in enumerate(outs):
+            if i in symp:
+                o = np.asarray(o)
+                r = np.empty(o.shape, dtype=object)
+                fr, fo = r.reshape(-1), o.reshape(-1)
+                for k in range(fo.size):
+                    fr[k] = pool[int(fo[k])]
+                res.append(r)
+            else:
+                res.append(o)
+        return res
 
     def p_is_finite(self, eqn, v):
         return _ew1(lambda p: P.ONE - P.b_isnan(p), v[0])
